@@ -681,12 +681,17 @@ def do_extract(header, sections, report):
     raise ValueError('unknown extract kind ' + kind)
 
 
+SHAPE_WORDS = {'loop', 'while', 'for', 'if', 'else', 'match', 'return', 'break', 'continue'}
+
+
 def _finish(entry, src, s, e, piece, report):
     entry['line_start'] = src.line_of(s)
     entry['line_end'] = src.line_of(e)
     entry['sha256'] = hashlib.sha256(src.text[s:e].encode()).hexdigest()
     entry['rewrites'] = piece.log
     entry['ghost_insertions'] = sorted({ed[4] for ed in piece.edits if ed[4].startswith('ghost:')})
+    # control structure of the extracted source text: the proof annotations (loop invariants, ghost blocks) are anchored to it
+    entry['shape'] = ' '.join(t.text for t in toks_in(src, s, e) if t.text in SHAPE_WORDS)
     report.append(entry)
 
 
@@ -1078,7 +1083,10 @@ def build_unit(template_path, out_path, report_path, defines=None):
             out.append(ch[1])
         else:
             out.append('// ---- extracted: %s ----' % ch[1])
+            n_before = len(report)
             out.append(do_extract(ch[1], ch[2], report))
+            for it in report[n_before:]:
+                it['marker'] = '// ---- extracted: %s ----' % ch[1]
             out.append('// ---- end extracted ----')
     result = '\n'.join(out)
     # constants of the same source file that an extracted function refers to but the unit does not define
